@@ -442,6 +442,83 @@ def inline_stmts(callee, call, recv=None):
     return pre + body, ret
 
 
+def _own_level(stmts, kinds) -> bool:
+    """is there a statement of one of `kinds` (Break / Continue) that belongs to the loop whose body `stmts` is?"""
+    def rec(node):
+        for ch in ast.iter_child_nodes(node):
+            if isinstance(ch, kinds):
+                return True
+            if isinstance(ch, (ast.For, ast.While, ast.FunctionDef, ast.AsyncFunctionDef, ast.Lambda, ast.ClassDef)):
+                if any(isinstance(x, kinds) for s in getattr(ch, "orelse", []) for x in ast.walk(s)):
+                    return True
+                continue
+            if rec(ch):
+                return True
+        return False
+    return any(isinstance(s, kinds) or rec(s) for s in stmts)
+
+
+def inline_generator_loop(callee, loop: ast.For, recv=None):
+    """`for T in gen(args): BODY` with `gen` a generator function that has exactly one `yield E` statement  ->  the statements of `gen`
+    (parameters renamed to the arguments, locals made unique, as inline_stmts does) with that statement replaced by `T = E; BODY`.
+    A generator runs interleaved with its consumer: the consumer's body executes exactly where the `yield` stands, once per value, so
+    the loop nest of the producer with the consumer's body inside is the same computation in the same order.  Refused (-> None) when
+    the equivalence needs more than that: several yields / yield from / return in the producer, a yield inside try / with, a
+    `break` or `else` on the consumer loop, or a consumer `continue` where the yield is not the last statement of the producer's
+    innermost loop."""
+    if not isinstance(callee, ast.FunctionDef) or loop.orelse or not isinstance(loop.iter, ast.Call):
+        return None
+    a = callee.args
+    if a.vararg or a.kwarg or a.posonlyargs:
+        return None
+    own = []
+
+    def scan(node, inside):
+        """-> False when the producer has a shape that is not handled"""
+        for ch in ast.iter_child_nodes(node):
+            if isinstance(ch, (ast.FunctionDef, ast.AsyncFunctionDef, ast.Lambda, ast.ClassDef)):
+                continue
+            if isinstance(ch, (ast.YieldFrom, ast.Await, ast.Global, ast.Nonlocal, ast.Return)):
+                return False
+            if isinstance(ch, ast.Yield):
+                own.append((ch, inside))
+            if not scan(ch, inside or isinstance(ch, (ast.Try, ast.With, ast.AsyncWith))):
+                return False
+        return True
+    if not scan(callee, False) or len(own) != 1 or own[0][1] or own[0][0].value is None:
+        return None
+    if _own_level(loop.body, (ast.Break,)):
+        return None
+    res = inline_stmts(callee, loop.iter, recv)
+    if res is None:
+        return None
+    body, ret = res
+    # the yield must be a whole statement; find the list that holds it
+    holder = []
+
+    def find(stmts, in_loop_tail):
+        for i, st in enumerate(stmts):
+            if isinstance(st, ast.Expr) and isinstance(st.value, ast.Yield):
+                holder.append((stmts, i, in_loop_tail and i == len(stmts) - 1))
+                continue
+            for fld in ("body", "orelse", "finalbody"):
+                b = getattr(st, fld, None)
+                if isinstance(b, list) and b and isinstance(b[0], ast.stmt) and not isinstance(st, (ast.FunctionDef, ast.ClassDef, ast.AsyncFunctionDef)):
+                    find(b, fld == "body" and isinstance(st, (ast.For, ast.While)))
+    find(body, False)
+    if len(holder) != 1:
+        return None                       # the yield is an operand (`x = yield e`): not a plain producer
+    stmts, i, last_in_loop = holder[0]
+    if _own_level(loop.body, (ast.Continue,)) and not last_in_loop:
+        return None
+    bind = ast.Assign(targets=[loop.target], value=stmts[i].value.value)
+    ast.copy_location(bind, loop)
+    stmts[i:i + 1] = [bind] + list(loop.body)
+    for b in body:
+        ast.fix_missing_locations(b)
+    return body
+
+
 def inline_stmt_calls(func, resolve, max_depth: int = 3):
     """resolve(call) -> (callee FunctionDef, receiver expr | None) | None.  Whole-statement calls are replaced by the callee's
     statements."""
@@ -464,6 +541,16 @@ def inline_stmt_calls(func, resolve, max_depth: int = 3):
             if isinstance(st, ast.Try):
                 for h in st.handlers:
                     h.body = expand(h.body, depth)
+            if isinstance(st, ast.For) and isinstance(st.iter, ast.Call) and depth < max_depth:
+                # a loop over a generator helper: the producer's statements with the consumer's body where the yield stands
+                r = resolve(st.iter)
+                if r is not None and r[0] is not func:
+                    new = inline_generator_loop(r[0], st, r[1])
+                    if new is not None:
+                        for b in new:
+                            ast.copy_location(b, st) if not hasattr(b, "lineno") else None
+                        out.extend(expand(new, depth + 1))
+                        continue
             c = value_of(st)
             if isinstance(c, ast.Call) and depth < max_depth:
                 r = resolve(c)
